@@ -91,7 +91,7 @@ func vectors(g *GenCtx) {
 			continue
 		}
 		sanse := strings.Contains(name, "sanse")
-		var pt, ad, wrapped string
+		var pt, ad, wrapped, kravatin string
 		for _, line := range strings.Split(string(raw), "\n") {
 			m := reLine.FindStringSubmatch(strings.TrimSpace(line))
 			if m == nil {
@@ -117,34 +117,31 @@ func vectors(g *GenCtx) {
 				g.Op("kra %s 2 %s", m[2], h)
 			case "out":
 				n, _ := strconv.Atoi(m[2])
-				g.Op("vatte %d 0", 8*n)
-				g.Op("want %s", h)
+				g.Op("vatte %d 0 =%s", 8*n, h)
 			case "kravatin":
-				g.Op("kravatte 2 16 %s", h)
+				kravatin = h
 			case "kravatout":
-				g.Op("want %s", h)
+				g.Op("kravatte 2 16 %s =%s", kravatin, h)
 			case "plaintext":
 				pt = h
 			case "ad":
 				ad = h
 			case "wrap":
-				g.Op("seal a %s %s", ad, pt)
 				wrapped = h
 			case "tag":
-				g.Op("want %s%s", strings.TrimPrefix(wrapped, "-"), h)
-				g.Op("openl b %s -", ad)
+				g.Op("seal a %s %s =%s%s", ad, pt, strings.TrimPrefix(wrapped, "-"), h)
+				g.Op("openl b %s - =%s", ad, pt)
 			default:
 				if w, ok := dumps[m[1]]; ok && !sanse {
-					g.Op("dump %s", w)
 					if w == "o" {
 						b, _ := Unhex(h)
 						v := 0
 						for i := 3; i >= 0; i-- {
 							v = v<<8 | int(b[i])
 						}
-						g.Op("want %d", v)
+						g.Op("dump o =%d", v)
 					} else {
-						g.Op("want %s", h)
+						g.Op("dump %s =%s", w, h)
 					}
 				}
 			}
@@ -669,12 +666,10 @@ func (s *state) exec(f []string) string {
 func run(in *bufio.Scanner, out *bufio.Writer) {
 	s := &state{objs: map[string]*obj{"a": nil, "b": nil}}
 	for in.Scan() {
-		f := strings.Fields(in.Text())
-		var res string
-		if len(f) == 2 && f[0] == "want" {
-			res = strings.ToLower(f[1]) // the published value
-		} else {
-			res = s.exec(f)
+		f, expect := StripExpect(strings.Fields(in.Text()))
+		res := s.exec(f)
+		if expect != "" && res != "bad-op" && res != expect {
+			res += " !vector"
 		}
 		out.WriteString(res)
 		out.WriteByte('\n')
